@@ -1348,7 +1348,7 @@ mismatch between values and axes""".format(inferred, self.values.shape)
         meta = {}
         for m in self._metadata():
             try:
-                val = getattr(self, m)
+                val = self.attrs[m]
                 if jsonimported: 
                     _ = json.dumps(val)
                 meta[m] = val
